@@ -7,7 +7,7 @@
   (5) binding self-test: a recorded trace is corrupted and must be rejected
 """
 import json, os, random, shutil, time, copy
-import vbuild, vtlc, engine, gen_core, gen_conc, checklib
+import vbuild, vtlc, engine, gen_core, gen_conc, gen_rt, checklib
 from vbuild import VERIF, InfraError
 
 PROPS = ["C01", "C02", "C03", "C04", "C05", "C06", "C17"]
@@ -182,6 +182,19 @@ def run(prop, tier, seed):
         if st is None or "No error has been found" not in r["out"]:
             raise InfraError("LockEngine exhaustive check did not complete cleanly (design model, not a verdict on the code):\n" + r["out"][-3000:])
         mc_wall = r["wall"]
+        # (1b) C05 / C06: the timer wheel design model (back-off re-checks, long-table hand-over, sweeper lag, updates)
+        wheel = None
+        if prop in ("C05", "C06"):
+            wheel = {"module": "spec/TimerWheel.tla", "configs": {}}
+            for cfgname in ("TimerWheel_one", "TimerWheel_upd"):
+                with open(os.path.join(VERIF, "spec", "mc", cfgname + ".cfg")) as fh:
+                    cfgtxt = fh.read()
+                rw = vtlc.run_tlc(os.path.join(VERIF, "spec"), "TimerWheel", cfgtxt, os.path.join(wd, "mc_" + cfgname), workers=engine.NCPU, timeout=600)
+                sw = vtlc.parse_stats(rw["out"])
+                if sw is None or "No error has been found" not in rw["out"]:
+                    raise InfraError("TimerWheel exhaustive check did not complete cleanly (design model, not a verdict on the code):\n" + rw["out"][-3000:])
+                wheel["configs"][cfgname] = {"distinct_states": sw["distinct"], "generated": sw["generated"], "wall_s": round(rw["wall"], 1)}
+                st = {"distinct": st["distinct"] + sw["distinct"], "generated": st["generated"] + sw["generated"], "queue": 0}
         # (2) behaviours
         nb = 150 if quick else 3000
         with open(os.path.join(VERIF, "spec", "sim", "LockEngine_sim.cfg")) as fh:
@@ -218,6 +231,16 @@ def run(prop, tier, seed):
                 raise InfraError(f"engine C died on {fin}:\n" + (p.stdout or "")[-3000:] + (p.stderr or "")[-2000:])
             traces.append(fout)
         scs = scs + conc
+        # (3c) engine RT: millisecond timers on the real clock with the server's own sweepers (C05 / C06 / C03)
+        rt = []
+        if prop in ("C03", "C05", "C06"):
+            rt = [gen_rt.gen_rt(seed, i) for i in range(48 if quick else 480) if i % 4 != 3]
+            resr = engine.run_harness(binp, "TestVerifRT", rt, os.path.join(wd, "runrt"), tag="rt", nshards=min(len(rt), 48))
+            for fin, fout, p in resr:
+                if p is not None:
+                    raise InfraError(f"engine RT died on {fin}:\n" + (p.stdout or "")[-3000:] + (p.stderr or "")[-2000:])
+                traces.append(fout)
+            scs = scs + rt
         # (4) monitors
         viols, mst = engine.monitor_traces("MonLock", traces, [prop], os.path.join(wd, "mon"))
         byname = {sc["name"]: sc for sc in scs}
@@ -237,8 +260,9 @@ def run(prop, tier, seed):
             "model": {"module": "spec/LockEngine.tla", "constants": "1 key, 3 LockIds, Count {0,1}, Rcount {0,1}, T {0,2}, E {0,2}, flags show/update/showupdate/conc/prio, unlock first/cancel, <= %d requests, clock <= %d" % ((3, 3) if quick else (4, 4)),
                       "invariants": ["HoldersWellFormed", "OneTerminalReply", "QueuedMeansLive", "NoLostWakeup", "WaitedFlagInv", "QueueOrderInv", "GrantOK", "RefusedUnlockChangesNothing", "NoEarlyTimeout"],
                       "wall_s": round(mc_wall, 1)},
+            "timer_wheel_model": wheel,
             "tlc_behaviours_replayed": len(beh), "tlc_behaviour_prefixes_printed": nprinted,
-            "gated_concurrent_histories": len(conc), "random_histories": len(rnd), "big_histories": len(big), "directed_histories": len(direct),
+            "gated_concurrent_histories": len(conc), "realtime_ms_histories": len(rt), "random_histories": len(rnd), "big_histories": len(big), "directed_histories": len(direct),
             "monitor": {"module": "spec/mon/MonLock.tla", "events": mst["events"], "monitor_states": mst["monitor_states"], "clauses_of": prop},
             "selftest": stest,
             "evaluations": len(scs), "distinct_nontrivial": len({json.dumps(s["steps"], sort_keys=True) for s in scs}),
@@ -248,7 +272,7 @@ def run(prop, tier, seed):
             "engine S is sequential: one goroutine, virtual clock, sweeps run by the driver (hook H1)",
             "engine C runs requests and sweepers as goroutines gated at the reply callback and the verifPoint hooks; schedules are seeded random (not enumerated); exact-count clauses of C17 are judged on sequential histories only",
             "requests with a LockId that already has a live queued request on the same key are skipped by the driver (finding A12 is explored by a directed history only)",
-            "millisecond timers are not driven by the virtual clock and are excluded here",
+            "millisecond timers run on the real clock (engine RT): only the lower bound (measured from the send stamp of the request that set the terms; 50 ms tolerance for grants from the queue) and eventual firing are judged, as the statement says",
         ]
         return out
     finally:
